@@ -152,7 +152,9 @@ def orV (a b : Verdict) : Verdict :=
 def pathVarCheck (input : Message) (v : Str) : Verdict :=
   match input.fields.find? (fun f => f.name == v) with
   | none => some v
-  | some f => if isPathParamCompatible f.descKind then none else some v
+  | some f =>
+    -- repeated and map fields are refused since `fix: go-http: refuse path variables bound to repeated or map fields`
+    if isPathParamCompatible f.descKind && f.card != .repeated && f.card != .map then none else some v
 
 /-- check 4: a bodiless verb with fields bound to neither path nor query. -/
 def bodilessCheck (input : Message) (vars : List Str) (verb : Str) : Verdict :=
